@@ -344,8 +344,11 @@ class Ctx:
             self.states += dist
             self.transitions += gen
             return True, st
-        if rej is None and "is violated" not in out and "TRACE-" not in out:
-            raise Undecided("trace validation run failed for infrastructure reasons:\n" + out[-4000:])
+        if rej is None:
+            # a rejection is only ever reported through the trace spec's own TRACE-REJECTED line (or an
+            # invariant of the spec violated by the real history); anything else is the machinery failing
+            if "is violated" not in out:
+                raise Undecided("trace validation run failed for infrastructure reasons:\n" + out[-4000:])
         st["detail"] = (rej.group(0) if rej else "") + " | " + out[-1200:]
         return False, st
 
